@@ -17,7 +17,8 @@ pub const FLOORS: &[&str] = &[
     "loc:abs", "label_offset_crosses_8000", "pc_offset_overflows_16_bits", "offset_beyond_i16_rejected",
     "inspect", "addr:0", "addr:orig-1", "addr:orig", "addr:x7FFF", "addr:x8000", "addr:xFDFF",
     "addr:xFE00", "addr:xFFFF", "origin_high", "origin_low", "predefined_breakpoint_outside_user_space",
-    "origin_zero", "origin_above_user_space", "wrong_case_label_rejected",
+    "origin_zero", "origin_above_user_space", "wrong_case_label_rejected", "integer_beyond_32_bits_rejected",
+    "bare_number_like_label_is_a_number",
 ];
 
 const CMDS_PER_SESSION: u64 = 120;
@@ -61,7 +62,9 @@ fn program(rng: &mut Rng, orig: u16) -> (String, RefImage) {
     // a small program with a few labels; it is never run to completion here
     let mut items = vec![Item::Orig(orig as i32)];
     // (label names that are words of the command language elsewhere - `pc`, `sp` - are plain labels)
-    let names = *rng.pick(&[["first", "mid", "data", "last"], ["pc", "sp", "Main", "psr"], ["PC", "count", "Count", "lr"], ["first", "Pc", "data", "SP"]]);
+    let names = *rng.pick(&[["first", "mid", "data", "last"], ["pc", "sp", "Main", "psr"], ["PC", "count", "Count", "lr"], ["first", "Pc", "data", "SP"],
+        // labels whose bare name is a number to the command language (with an offset they are labels)
+        ["b10", "o17", "data", "B1"]]);
     let n = 4 + rng.below(12) as usize;
     for k in 0..n {
         let label = match k {
@@ -195,6 +198,39 @@ fn one_case(seed: u64, i: u64, n_sessions: u64, sweep_all: bool) -> CaseOut {
                 Loc::Pc(off)
             }
         };
+        if rng.chance(1, 16) {
+            // integers of more than 32 bits whose low bits would be a fine address or value: refused
+            let low = orig.wrapping_add(rng.below(img.words.len() as u64) as u16) as u64;
+            let big = (1 + rng.below(5)) * (1u64 << 32) + low;
+            let spelt = match rng.below(4) {
+                0 => format!("{}", big),
+                1 => format!("x{:x}", big),
+                2 => format!("#{}", big),
+                _ => format!("o{:o}", big),
+            };
+            classes.push("integer_beyond_32_bits_rejected".into());
+            cmds.push(Cmd::Rejected(match rng.below(5) {
+                0 => format!("goto {}", spelt),
+                1 => format!("move {} x1234", spelt),
+                2 => format!("break add {}", spelt),
+                3 => format!("move r{} {}", rng.below(8), spelt),
+                _ => format!("goto {}+{}", labels[0].0, spelt),
+            }));
+            continue;
+        }
+        if labels.iter().any(|(n, _)| n == "b10") && orig > 15 && rng.chance(1, 10) {
+            // the bare tokens b10, o17, B1 are the numbers 2, 15 and 1, whatever labels exist: below the
+            // origin, so refused without effect
+            classes.push("bare_number_like_label_is_a_number".into());
+            let t = *rng.pick(&["b10", "o17", "B1", "B10", "O17", "0b10", "b1"]);
+            cmds.push(Cmd::Inspect(match rng.below(4) {
+                0 => format!("goto {}", t),
+                1 => format!("move {} x{:04x}", t, rng.u16()),
+                2 => format!("break add {}", t),
+                _ => format!("break remove {}", t),
+            }));
+            continue;
+        }
         if rng.chance(1, 14) {
             // an existing label in another letter case: labels are case-sensitive, so this names
             // nothing - an error, and nothing changes
@@ -208,6 +244,10 @@ fn one_case(seed: u64, i: u64, n_sessions: u64, sweep_all: bool) -> CaseOut {
                     1 => format!("{}+{}", wrong, rng.below(3)),
                     _ => format!("{}-1", wrong),
                 };
+                // (a wrong-case spelling may itself be a number to the command language: `B10`)
+                if !matches!(crate::refcmd::memory_location(&arg), Ok(crate::refcmd::RLoc::Label(n, _)) if n == wrong) {
+                    continue;
+                }
                 classes.push("wrong_case_label_rejected".into());
                 // (the line parses; it is refused when the label is looked up: a command without effect)
                 cmds.push(Cmd::Inspect(match rng.below(4) {
